@@ -51,6 +51,11 @@ func ProcShapes() []ProcShape {
 		{Name: "exit-nonzero-on-int-allow-failure", Lines: []string{`MARK bash -c 'trap "exit 130" INT; sleep 300 & wait'`}, Leaves: 1, AllowFailure: true},
 		{Name: "exit-nonzero-on-int", Lines: []string{"MARK true", `MARK bash -c 'trap "exit 3" INT; sleep 300 & wait'`}, Leaves: 1},
 		{Name: "ignore-int-last-allow-failure", Lines: []string{`MARK bash -c 'trap "" INT; sleep 300'`}, Leaves: 1, AllowFailure: true},
+		// the process the runner started prints a line when it is interrupted and exits; an interrupt-ignoring descendant holds
+		// the task's output (one merged pipe / both pipes written): the task run ends when the output is closed, i.e. after
+		// the kill escalation (seed C20-n: a writer wrapper that fails after the cancel lets the run end at the first write)
+		{Name: "leader-prints-on-int-ignorer-holds-merged-output", Lines: []string{`MARK bash -c 'trap "echo interrupted; exit 0" INT; (trap "" INT; exec sleep 300) & wait' 2>&1`}, Leaves: 1},
+		{Name: "leader-prints-on-int-to-both-streams-ignorer-holds-output", Lines: []string{`MARK bash -c 'trap "echo interrupted; echo interrupted-err 1>&2; exit 0" INT; (trap "" INT; exec sleep 300) & wait'`}, Leaves: 1},
 		{Name: "leader-exited-child-detached", Lines: []string{`MARK sh -c 'sleep 300 >/dev/null 2>&1 </dev/null &'`, "MARK sleep 301"}, Leaves: 2},
 		{Name: "leader-dies-ignorer-detached-from-pipes", Lines: []string{`MARK bash -c '(trap "" INT; exec sleep 300) >/dev/null 2>&1 </dev/null & wait'`}, Leaves: 1, DetachedIgnorer: true},
 		{Name: "interp-background-ignores-int", Lines: []string{`MARK bash -c 'trap "" INT; exec sleep 300' &`, "MARK sleep 301"}, Leaves: 2, DetachedIgnorer: true},
